@@ -1,16 +1,17 @@
 //! C17 (external part): `to_dyn!` expanded in a crate OTHER than rrtk that declares NO features.
 //!
-//! The macro's `#[cfg(feature = "alloc")]` / `#[cfg(feature = "std")]` arms are evaluated where the macro is
-//! expanded, i.e. against the features of THIS crate, not rrtk's.  This crate declares no features at all, while
-//! rrtk is built with `std` (so `Reference` has all six variants).  Property C17 demands that the conversion
-//! "succeeds for every variant the macro lists, regardless of which features the calling crate itself declares".
+//! rrtk is built with `std` (so `Reference` has all six variants); this crate has no `[features]` at all.
+//! Property C17 demands that the conversion "succeeds for every variant the macro lists, regardless of which
+//! features the calling crate itself declares, and the result aliases the same object".
+//!
+//! History: on rrtk 0.6.1 before fix 8a9f062 the macro's `#[cfg(feature = "alloc")]` / `#[cfg(feature = "std")]`
+//! arms were evaluated where the macro is expanded, i.e. against THIS crate's (non-existent) features, and
+//!   c17_ext_to_dyn_rc_from_featureless_crate / c17_ext_to_dyn_ptr_rw_lock_from_featureless_crate
+//! FAILED for every input with "not implemented" (`_ => unimplemented!()`), natively too (`cargo test`).
+//! Since 8a9f062 the feature-dependent arms live in helper macros selected by rrtk's own features.
 //!
 //! Run (after substituting RRTK_PATH in Cargo.toml):  cargo kani --harness <name>   /   cargo test
-//! Expected on the unchanged rrtk 0.6.1 tree:
-//!   c17_ext_to_dyn_ptr_from_featureless_crate          SUCCESSFUL  (the Ptr arm carries no cfg)
-//!   c17_ext_to_dyn_rc_from_featureless_crate           FAILED      "not implemented": `_ => unimplemented!()`, reference.rs:363
-//!   c17_ext_to_dyn_ptr_rw_lock_from_featureless_crate  FAILED      same (the PtrRwLock arm is cfg(feature = "std"))
-//! and natively `cargo test` panics with "not implemented" in the two corresponding `_native` tests.
+//! Expected now: all three harnesses SUCCESSFUL, all three native tests ok.
 #![allow(unexpected_cfgs)]
 
 /// The scenarios, parameterised by their input values so that the Kani harnesses (symbolic values) and the
@@ -87,23 +88,21 @@ mod proofs {
         In { pad: kani::any(), v0: kani::any(), x: kani::any(), y: kani::any(), z: kani::any() }
     }
 
-    //@ob witness-of-defect
-    //@ob witness=1 fn="to_dyn! (RcRefCell arm)" at=src/reference.rs:355 clause="to_dyn! on an Rc-backed Reference expanded in a crate without a feature named alloc must not panic and must alias the source -- FAILS on the unchanged tree: the cfg(feature=alloc) arm is compiled out at the call site and `_ => unimplemented!()` is reached for every input"
+    //@ob fn="to_dyn! / __to_dyn_alloc! (RcRefCell arm)" at=src/reference.rs:373 clause="to_dyn! on an Rc-backed Reference expanded in a crate without a feature named alloc does not panic and aliases the source (was the witness of the defect fixed by 8a9f062: before the fix `_ => unimplemented!()` was reached for every input)"
     #[kani::proof]
     fn c17_ext_to_dyn_rc_from_featureless_crate() {
         rc_case(any_in());
         kani::cover!(true, "reach-end");
     }
 
-    //@ob witness-of-defect
-    //@ob witness=1 fn="to_dyn! (PtrRwLock arm)" at=src/reference.rs:359 clause="to_dyn! on a PtrRwLock Reference expanded in a crate without a feature named std must not panic and must alias the source -- FAILS on the unchanged tree for the same reason (cfg(feature=std) arm compiled out at the call site)"
+    //@ob fn="to_dyn! / __to_dyn_std! (PtrRwLock arm)" at=src/reference.rs:401 clause="to_dyn! on a PtrRwLock Reference expanded in a crate without a feature named std does not panic and aliases the source (failed before fix 8a9f062 for the same reason)"
     #[kani::proof]
     fn c17_ext_to_dyn_ptr_rw_lock_from_featureless_crate() {
         ptr_rw_lock_case(any_in());
         kani::cover!(true, "reach-end");
     }
 
-    //@ob fn="to_dyn! (Ptr arm)" at=src/reference.rs:352 clause="to_dyn! on a Ptr Reference expanded in a feature-less downstream crate does not panic and aliases the source (this arm has no cfg)"
+    //@ob fn="to_dyn! (Ptr arm)" at=src/reference.rs:349 clause="to_dyn! on a Ptr Reference expanded in a feature-less downstream crate does not panic and aliases the source (this arm has no cfg)"
     #[kani::proof]
     fn c17_ext_to_dyn_ptr_from_featureless_crate() {
         ptr_case(any_in());
